@@ -316,7 +316,20 @@ def dispatchers(ctx, prog):
                 for bb in reach:
                     for s in f.blocks[bb]["stmts"]:
                         if s["s"] == "assign" and s["lhs"]["l"] == 0 and const_value(sy.rvalue(s["rv"])) == 100:
-                            has100 = True
+                            # ... and only for identical hashes: the constant is reached under `self == other` (never under `!=`)
+                            eqs = []
+                            for c in path_conds(f, sy, bb):
+                                a = bool_atom(c)
+                                if a and a[0] == "truth" and strip(a[1])[0] == "call" and len(strip(a[1])[2]) == 2:
+                                    cal = strip(a[1])[1]
+                                    if re.search(r"::eq(::<[^()]*>)?$", cal):
+                                        eqs.append(a[2] is True)
+                                    elif re.search(r"::ne(::<[^()]*>)?$", cal):
+                                        eqs.append(a[2] is False)
+                            has100 = bool(eqs) and all(eqs)
+                            if not has100:
+                                ctx.ob(R, "%s: the constant 100 of the NearEq arm is returned only under `self == other`" % f.short, False,
+                                       "equality tests on the path: %s" % eqs, f.loc(s["sp"]))
                 deleg = [callee_of(f.blocks[bb]["term"]) for bb in reach if f.blocks[bb]["term"]["t"] == "call"]
                 via = any(c.endswith("compare_near_eq_internal") for c in deleg)
                 ctx.ob(R, "%s: NearEq arm returns 100 for identical hashes before any scoring" % f.short, has100 or via,
@@ -552,12 +565,17 @@ def scan_exits(ctx, prog):
         if v is None:
             bad.append("non-constant result %s at bb%d" % (show(e)[:60], blk))
             continue
-        ats = [a for a in (bool_atom(c) for c in path_conds(f, sy, blk)) if a]
+        pcs = path_conds(f, sy, blk)
+        ats = [a for a in (bool_atom(c) for c in pcs) if a]
         scan = [a for a in ats if a[0] in ("Eq", "Ne", "Lt", "Le", "Gt", "Ge") and strip(a[1])[0] == "local"]
         if v == 1:
             n_true += 1
+            # the running match is tested several times on the way (loop condition, window-end test): the LAST test before the exit - the one
+            # whose branch is dominated by all the others - is the one that speaks about the value the exit sees
+            dtests = [(c[3][0], a) for c, a in ((c, bool_atom(c)) for c in pcs) if a and a[0] in ("Eq", "Ne") and strip(a[1])[0] == "local" and const_value(strip(a[2])) == 0 and len(c) > 3]
+            last = [x for x in dtests if all(f.dominates(y[0], x[0]) for y in dtests)]
             ok = any(a[0] == "Eq" and strip(a[1])[0] == "local" and strip(a[2])[0] == "local" for a in ats) and \
-                any(a[0] == "Ne" and strip(a[1])[0] == "local" and const_value(strip(a[2])) == 0 for a in ats)
+                bool(last) and all(x[1][0] == "Ne" for x in last)
             if not ok:
                 bad.append("true at bb%d not under `l == r && d != 0`: %s" % (blk, [G.show_atom(a) for a in scan][:4]))
         else:
